@@ -385,6 +385,9 @@ func TestC10(t *testing.T) {
 			}
 		}
 	}
+	// a case that has not ended after a minute of real time (normal: milliseconds) is examined for a
+	// goroutine spinning in library code (rep.Guard)
+	r.Guard(60 * time.Second)
 	n := r.N(2000, 150000)
 	for i := 0; i < n; i++ {
 		if !r.Only(i) {
@@ -393,7 +396,9 @@ func TestC10(t *testing.T) {
 		rng := r.CaseRand(10, i)
 		c := genC10(rng)
 		c.Seed = fmt.Sprintf("seed=%d lane=%d case=%d", r.Seed, r.Lane, i)
+		r.Begin(fmt.Sprint(i), c)
 		key, msg, stats := runC10(c, rng, r)
+		r.End(fmt.Sprint(i))
 		cls := "under"
 		if int64(c.Size) == c.Limit {
 			cls = "at"
